@@ -2,7 +2,7 @@
 from ..core import Anchor
 from ..model import op_values
 from .. import ospec
-from . import loaderx
+from . import loadeval as loaderx
 
 EXPLANATION = (
     "The loader is a finite transducer over (function open?, block open?) x opcode. An abstract interpreter evaluates "
